@@ -389,6 +389,19 @@ func (s *SecureChannel) Receive(ctx context.Context) *MessageBody {
 					msg.Err = errors.Errorf("too many chunks: %d > %d", n, s.c.MaxChunkCount())
 					return msg
 				}
+				// the limit also holds for the chunks of all incomplete
+				// messages together. Otherwise a peer can make us buffer
+				// any amount of data by never finishing its messages.
+				var buffered int
+				for _, cs := range s.chunks {
+					buffered += len(cs)
+				}
+				if uint32(buffered) > s.c.MaxChunkCount() {
+					s.chunks = make(map[uint32][]*MessageChunk)
+					s.chunksMu.Unlock()
+					msg.Err = errors.Errorf("too many chunks of incomplete messages: %d > %d", buffered, s.c.MaxChunkCount())
+					return msg
+				}
 				s.chunksMu.Unlock()
 				continue
 			}
